@@ -18,7 +18,8 @@ Definition tTexts (t : Tree) : list text := map tLZ (tL t).
      4  [text; axis; ids]       _subset_table on JSON text                  -> result text
      5  [file; axis; ids file text; L [L [id text; I code]]]   `biom subset-table -i` : the ids file is read as the
                                 command reads it, each id text is looked up (unknown -> a fresh negative code)  -> result table
-     6  [text; axis; ids file text]   `biom subset-table -j`  -> result text (the output file) *)
+     6  [text; axis; ids file text]   `biom subset-table -j`  -> result text (the output file)
+     7  [file; axis; ids]       parse_table(open h5py.File, ids=, axis=)      -> result table *)
 Definition lookup_code (d : list (text * Z)) (k : nat) (i : text) : Z :=
   match find (fun p => teqb (fst p) i) d with Some p => snd p | None => (- Z.of_nat (S k))%Z end.
 Fixpoint codes_from (d : list (text * Z)) (k : nat) (l : list text) : list Z :=
@@ -33,5 +34,6 @@ Definition run (t : Tree) : Tree :=
   | 4%Z => eResult eText (subset_json (tLZ (tnth t 1)) (tAxis (tnth t 2)) (tTexts (tnth t 3)))
   | 5%Z => eResult eTable (from_hdf5_subset (codes_from (tDict (tnth t 4)) 0 (read_ids_file (tLZ (tnth t 3))))
                                             (tAxis (tnth t 2)) (tFile (tnth t 1)))
-  | _ => eResult eText (cli_subset_json (tLZ (tnth t 1)) (tAxis (tnth t 2)) (tLZ (tnth t 3)))
+  | 6%Z => eResult eText (cli_subset_json (tLZ (tnth t 1)) (tAxis (tnth t 2)) (tLZ (tnth t 3)))
+  | _ => eResult eTable (parse_table_h5 (tLZ (tnth t 3)) (tAxis (tnth t 2)) (tFile (tnth t 1)))
   end.
